@@ -92,6 +92,15 @@ impl Polynomial {
         result
     }
 
+    /// Verification hook: keep trailing zero coefficients so callers that
+    /// slice by length keep working on forced (possibly short) quotients.
+    #[cfg(feature = "verif")]
+    pub(crate) fn from_coefficients_vec_untrimmed(
+        coeffs: Vec<BlsScalar>,
+    ) -> Self {
+        Self { coeffs }
+    }
+
     /// Returns the degree, i.e. the highest index of all non-zero coefficients,
     /// of the [`Polynomial`].
     pub(crate) fn degree(&self) -> usize {
